@@ -394,7 +394,419 @@ impl GameEnv {
     }
 }
 
+
+// ====================================================================== Pay
+
+fn in_range_63(s: &Scalar) -> bool {
+    let b = s.to_bytes();
+    b[8..].iter().all(|&x| x == 0) && b[7] < 0x80
+}
+fn scalar_to_i64(s: &Scalar) -> Option<i64> {
+    if !in_range_63(s) { return None; }
+    let b = s.to_bytes();
+    let mut a = [0u8; 8];
+    a.copy_from_slice(&b[..8]);
+    Some(u64::from_le_bytes(a) as i64)
+}
+fn amount_scalar(a: i64) -> Scalar {
+    if a < 0 { -Scalar::from(a.unsigned_abs()) } else { Scalar::from(a as u64) }
+}
+
+/// everything the pay attacker needs from an honest channel that reached `Ready`
+pub struct ReadyInfo {
+    pub ch: u32,
+    pub old: [Scalar; 5],
+    pub token: Signature,
+    pub old_pair: Vec<u8>,
+    pub ctx: Context,
+}
+
 impl GameEnv {
-    pub fn observe_pay(&mut self) -> Value { json!({"todo": true}) }
-    pub fn pay(&mut self, _st: &Value) -> Value { json!({"todo": true}) }
+    /// drive an honest channel to Ready with `history` completed payments
+    pub fn honest_ready(&mut self, cb: u64, mb: u64, history: &[i64]) -> ReadyInfo {
+        let ch = 10 + self.world.chans.len() as u32;
+        let w = &mut self.world;
+        w.request(ch, cb, mb);
+        w.minit(ch);
+        w.receive(ch, "honest", None);
+        w.mactivate(ch);
+        w.receive(ch, "honest", None);
+        for &a in history {
+            w.start(ch, a);
+            w.mallow(ch);
+            w.receive(ch, "honest", None);
+            w.mcomplete(ch, "honest");
+            w.receive(ch, "honest", None);
+        }
+        let c = &w.chans[&ch];
+        assert_eq!(c.cust.stage(), "ready", "honest channel did not reach ready");
+        let t = c.cust.tree();
+        let cidb = t.bytes_at("state.channel_id").unwrap();
+        let l = |i: usize| { let mut a = [0u8; 8]; a.copy_from_slice(&cidb[8 * i..8 * i + 8]); u64::from_le_bytes(a) };
+        let old = [
+            Scalar::from_raw([l(0), l(1), l(2), l(3)]),
+            indep::sc(t.bytes_at("state.nonce").unwrap()).unwrap(),
+            indep::sc(t.bytes_at("state.revocation_pair.lock").unwrap()).unwrap(),
+            Scalar::from(t.u64_at("state.customer_balance").unwrap()),
+            Scalar::from(t.u64_at("state.merchant_balance").unwrap()),
+        ];
+        let (lo, hi) = t.span("pay_token").unwrap();
+        let token: Signature = bincode::deserialize(&t.bytes[lo..hi]).unwrap();
+        let (lo, hi) = t.span("state.revocation_pair").unwrap();
+        let _ = take_challenge_log();
+        ReadyInfo { ch, old, token, old_pair: t.bytes[lo..hi].to_vec(), ctx: c.ctx }
+    }
+
+    /// honest PayProof of the library's own prover on a copy of the Ready customer (template layout,
+    /// and the object of the transcript observation)
+    fn honest_pay_proof(&mut self, info: &ReadyInfo, amount: i64) -> (Vec<u8>, Tree, Vec<u8>) {
+        let mut rng = self.rng(3);
+        let c = &self.world.chans[&info.ch];
+        let cfg = &self.world.ccfgs[c.mer];
+        let copy = Cust::from_bytes("ready", &c.cust.to_bytes()).unwrap();
+        let ready = match copy { Cust::Ready(r) => r, _ => unreachable!() };
+        let amt: PaymentAmount = bincode::deserialize(&amount.to_le_bytes()).unwrap();
+        let (_started, msg) = ready.start(&mut rng, amt, &info.ctx, cfg).ok().expect("honest start");
+        let nonce = bincode::serialize(&msg.nonce).unwrap();
+        let tree = Tree::of(&msg.pay_proof);
+        let _ = take_challenge_log();
+        (tree.bytes.clone(), tree, nonce)
+    }
+
+    /// Execute one pay strategy against merchant::Config::allow_payment.
+    pub fn pay(&mut self, st: &Value) -> Value {
+        let history: Vec<i64> = st["history"].as_array().map(|a| a.iter().map(|x| x.as_i64().unwrap()).collect()).unwrap_or_default();
+        let info = self.honest_ready(st["cb"].as_u64().unwrap_or(100), st["mb"].as_u64().unwrap_or(50), &history);
+        let amount = st["amount"].as_i64().unwrap_or(7);
+        let (_hb, tpl, _hn) = self.honest_pay_proof(&info, 1);
+        let mut rng = self.rng(4);
+        let seed_r = self.seed.wrapping_add(self.counter * 77);
+        let m: &'static merchant::Config = self.world.mers[0];
+        let cfg = customer_config_of(m);
+        let pk = m.signing_keypair().public_key().clone();
+        let pkv = Pk::from_tree(&Tree::of(&pk), "").unwrap();
+        let rparams = m.range_constraint_parameters().clone();
+        let rpk = Pk::from_tree(&Tree::of(&rparams), "public_key").unwrap();
+        let revp = m.revocation_commitment_parameters().clone();
+        let revt = Tree::of(&revp);
+        let (rev_h, rev_g) = (indep::g1(revt.bytes_at("h").unwrap()).unwrap(), indep::g1(revt.bytes_at("gs.0").unwrap()).unwrap());
+
+        // ---- statement and hidden values
+        let a_s = amount_scalar(amount);
+        let claimed_amount = st["claimed_amount"].as_i64().unwrap_or(amount);
+        let new_nonce = Scalar::random(&mut rng);
+        let new_lock = Scalar::random(&mut rng);
+        let base_pt = info.old;
+        let base_st = [info.old[0], new_nonce, new_lock, info.old[3] - a_s, info.old[4] + a_s];
+        let base_cl = [info.old[0], CLOSE_SCALAR, new_lock, info.old[3] - a_s, info.old[4] + a_s];
+        let hpt = dev(&base_pt, &st["hpt"], &mut rng);
+        let hst = dev(&base_st, &st["hst"], &mut rng);
+        let hcl = dev(&base_cl, &st["hcl"], &mut rng);
+        let hrl = match st["hrl"].as_str().unwrap_or("ok") { "ok" => info.old[2], "plus1" => info.old[2] + Scalar::one(), _ => Scalar::random(&mut rng) };
+        let claimed_nonce_s = match st["claimed_nonce"].as_str().unwrap_or("real") { "real" => info.old[1], "plus1" => info.old[1] + Scalar::one(), _ => Scalar::random(&mut rng) };
+        let token = match st["token"].as_str().unwrap_or("real") {
+            "real" => info.token,
+            "otherkey" => Message::new(hpt).sign(&mut rng, &self.world.other_kp),
+            _ => info.token,
+        };
+        let token_ok = token.verify(&pk, &Message::new(hpt));
+        // range values: by default the hidden new balances when they are in range, else 0
+        let rv = |key: &str, hidden: &Scalar| -> i64 {
+            match st[key].as_i64() {
+                Some(v) => v,
+                None => scalar_to_i64(hidden).unwrap_or(0),
+            }
+        };
+        let range_cb = rv("range_cb", &hst[3]);
+        let range_mb = rv("range_mb", &hst[4]);
+        let unlink: Vec<String> = st["unlink"].as_array().map(|a| a.iter().map(|x| x.as_str().unwrap().to_string()).collect()).unwrap_or_default();
+        let linked = |name: &str| !unlink.iter().any(|u| u == name);
+
+        // ---- first message (same order as PayProof::new)
+        let mk_ranges = |seed: u64| -> Option<(RangeConstraintBuilder, RangeConstraintBuilder)> {
+            let mut r = seeded(seed, 41);
+            let a = RangeConstraintBuilder::generate_constraint_commitments(range_cb, &rparams, &mut r).ok()?;
+            let b = RangeConstraintBuilder::generate_constraint_commitments(range_mb, &rparams, &mut r).ok()?;
+            Some((a, b))
+        };
+        let (crb, mrb) = match mk_ranges(seed_r) {
+            Some(x) => x,
+            None => return json!({"ev": "game", "proof": "pay", "id": st["id"], "error": "range builder refused the value"}),
+        };
+        let (crb2, mrb2) = mk_ranges(seed_r).unwrap();
+        let cbs = crb.commitment_scalar();
+        let mbs = mrb.commitment_scalar();
+        let rlb = CommitmentProofBuilder::<G1Projective, 1>::generate_proof_commitments(&mut rng, Message::new([hrl]), &[None], &revp);
+        let rl_cs = rlb.conjunction_commitment_scalars()[0];
+        let opt = |name: &str, v: Scalar| if linked(name) { Some(v) } else { None };
+        let ptb = SignatureProofBuilder::<5>::generate_proof_commitments(
+            &mut rng, Message::new(hpt), token,
+            &[None, None, opt("pt2", rl_cs), opt("pt3", cbs), opt("pt4", mbs)], &pk);
+        let pt_cs = *ptb.conjunction_commitment_scalars();
+        let stb = SignatureRequestProofBuilder::<5>::generate_proof_commitments(
+            &mut rng, Message::new(hst), &[opt("st0", pt_cs[0]), None, None, opt("st3", cbs), opt("st4", mbs)], &pk);
+        let st_cs = *stb.conjunction_commitment_scalars();
+        let clb = SignatureRequestProofBuilder::<5>::generate_proof_commitments(
+            &mut rng, Message::new(hcl),
+            &[opt("cl0", st_cs[0]), None, opt("cl2", st_cs[2]), opt("cl3", st_cs[3]), opt("cl4", st_cs[4])], &pk);
+        let cl_cs = *clb.conjunction_commitment_scalars();
+        let bf_rl = rlb.message_blinding_factor();
+        let bf_st = stb.message_blinding_factor();
+        let bf_cl = clb.message_blinding_factor();
+
+        let mut s_nonce = pt_cs[1];
+        let mut s_tag = cl_cs[1];
+        if let Some(d) = st["rev_delta"].as_object() {
+            if d.contains_key("nonce") { s_nonce += Scalar::one(); }
+            if d.contains_key("tag") { s_tag += Scalar::one(); }
+        }
+
+        let claimed_nonce: Nonce = match bincode::deserialize(&claimed_nonce_s.to_bytes()) {
+            Ok(n) => n,
+            Err(_) => return json!({"ev": "game", "proof": "pay", "id": st["id"], "error": "nonce not decodable"}),
+        };
+        let claimed_amt: PaymentAmount = bincode::deserialize(&claimed_amount.to_le_bytes()).unwrap();
+        let ca_s = amount_scalar(claimed_amount);
+
+        let assemble = |s_nonce: &Scalar, s_tag: &Scalar, pt: &[u8], rl: &[u8], stp: &[u8], cl: &[u8], cr: &[u8], mr: &[u8]| -> Vec<u8> {
+            let mut b = tpl.bytes.clone();
+            patch(&mut b, &tpl, "old_nonce_commitment_scalar", &sbytes(s_nonce));
+            patch(&mut b, &tpl, "close_tag_commitment_scalar", &sbytes(s_tag));
+            patch_span(&mut b, &tpl, "old_pay_token_proof", pt);
+            patch_span(&mut b, &tpl, "old_revocation_lock_proof", rl);
+            patch_span(&mut b, &tpl, "state_proof", stp);
+            patch_span(&mut b, &tpl, "close_state_proof", cl);
+            patch_span(&mut b, &tpl, "customer_balance_proof", cr);
+            patch_span(&mut b, &tpl, "merchant_balance_proof", mr);
+            b
+        };
+        let ctx = info.ctx;
+        let submit = |bytes: &[u8], rng: &mut StdRng| {
+            let _ = take_challenge_log();
+            match bincode::deserialize::<PayProof>(bytes) {
+                Ok(p) => {
+                    let r = m.allow_payment(rng, claimed_amt, &claimed_nonce, p, &ctx);
+                    (r, last_challenge())
+                }
+                Err(_) => (None, None),
+            }
+        };
+
+        // draft under a dummy challenge -> the verifier's challenge c0
+        let dummy = ChallengeBuilder::new().finish();
+        let _ = take_challenge_log();
+        let ser = |v: &dyn erased::Ser| v.ser();
+        let draft = assemble(&s_nonce, &s_tag,
+            &ser(&ptb.clone().generate_proof_response(dummy)), &ser(&rlb.clone().generate_proof_response(dummy)),
+            &ser(&stb.clone().generate_proof_response(dummy)), &ser(&clb.clone().generate_proof_response(dummy)),
+            &ser(&crb2.generate_constraint_response(dummy)), &ser(&mrb2.generate_constraint_response(dummy)));
+        let (_, ch0) = submit(&draft, &mut rng);
+        let (tr0, c0) = match ch0 {
+            Some(x) => x,
+            None => return json!({"ev": "game", "proof": "pay", "id": st["id"], "error": "draft not decodable"}),
+        };
+        let chal0 = challenge_from_transcript(&tr0);
+        assert_eq!(chal0.to_scalar(), c0);
+        let c0inv = Option::<Scalar>::from(c0.invert()).expect("challenge non-zero");
+
+        // honest responses for the hidden values under c0
+        let p_pt = ptb.generate_proof_response(chal0);
+        let p_rl = rlb.generate_proof_response(chal0);
+        let p_st = stb.generate_proof_response(chal0);
+        let p_cl = clb.generate_proof_response(chal0);
+        let p_cr = crb.generate_constraint_response(chal0);
+        let p_mr = mrb.generate_constraint_response(chal0);
+        let z_pt = *p_pt.conjunction_response_scalars();
+        let z_rl = *p_rl.conjunction_response_scalars();
+        let mut z_st = *p_st.conjunction_response_scalars();
+        let mut z_cl = *p_cl.conjunction_response_scalars();
+        let b_pt = ser(&p_pt);
+        let mut b_rl = ser(&p_rl);
+        let mut b_st = ser(&p_st);
+        let mut b_cl = ser(&p_cl);
+        let (t_rl, t_st, t_cl) = (Tree::of(&p_rl), Tree::of(&p_st), Tree::of(&p_cl));
+
+        // post-challenge choice of the revealed scalars
+        if let Some(r) = st["rev"].as_object() {
+            if r.get("nonce").and_then(|v| v.as_str()) == Some("late") { s_nonce = z_pt[1] - c0 * claimed_nonce_s; }
+            if r.get("tag").and_then(|v| v.as_str()) == Some("late") { s_tag = z_cl[1] - c0 * CLOSE_SCALAR; }
+        }
+        // post-challenge choice of T / C of one G1 sub-proof slot (st, cl, rl)
+        let mut fin_st = hst;
+        let mut fin_cl = hcl;
+        let mut fin_rl = hrl;
+        for sim in st["sim"].as_array().cloned().unwrap_or_default() {
+            let which = sim["proof"].as_str().unwrap();
+            let slot = sim["slot"].as_u64().unwrap() as usize;
+            let field = sim["field"].as_str().unwrap();
+            // what the verifier expects for that response
+            let want = match (which, slot) {
+                ("cl", 1) => c0 * CLOSE_SCALAR + s_tag,
+                ("cl", k) => z_st[k],
+                ("st", 0) => z_pt[0],
+                ("st", 3) => z_pt[3] - c0 * ca_s,
+                ("st", 4) => z_pt[4] + c0 * ca_s,
+                ("st", k) => z_cl[k],
+                ("rl", _) => z_pt[2],
+                _ => continue,
+            };
+            let (bytes, tplx, prefix, h, gs): (&mut Vec<u8>, &Tree, &str, G1Affine, Vec<G1Affine>) = match which {
+                "st" => { z_st[slot] = want; (&mut b_st, &t_st, "commitment_proof", pkv.g1, pkv.y1s.clone()) }
+                "cl" => { z_cl[slot] = want; (&mut b_cl, &t_cl, "commitment_proof", pkv.g1, pkv.y1s.clone()) }
+                _ => (&mut b_rl, &t_rl, "", rev_h, vec![rev_g]),
+            };
+            let pth = |x: &str| if prefix.is_empty() { x.to_string() } else { format!("{}.{}", prefix, x) };
+            patch(bytes, tplx, &pth(&format!("message_response_scalars.{}", slot)), &sbytes(&want));
+            let view = Tree { bytes: bytes.clone(), leaves: tplx.leaves.clone() };
+            let cpv = if prefix.is_empty() {
+                Cp { c: view.bytes_at("commitment").unwrap().to_vec(), t: view.bytes_at("scalar_commitment").unwrap().to_vec(),
+                     zbf: indep::sc(view.bytes_at("blinding_factor_response_scalar").unwrap()).unwrap(),
+                     z: vec![indep::sc(view.bytes_at("message_response_scalars.0").unwrap()).unwrap()] }
+            } else { Cp::from_tree(&view, prefix).unwrap() };
+            let cc = G1Projective::from(indep::g1(&cpv.c).unwrap());
+            let tt = G1Projective::from(indep::g1(&cpv.t).unwrap());
+            let mut lhs = G1Projective::from(h) * cpv.zbf;
+            for (g, zz) in gs.iter().zip(cpv.z.iter()) { lhs += G1Projective::from(g) * zz; }
+            if field == "T" {
+                patch(bytes, tplx, &pth("scalar_commitment"), &G1Affine::from(lhs - cc * c0).to_compressed());
+            } else {
+                patch(bytes, tplx, &pth("commitment"), &G1Affine::from((lhs - tt) * c0inv).to_compressed());
+                match which {
+                    "st" => fin_st[slot] = (want - st_cs[slot]) * c0inv,
+                    "cl" => fin_cl[slot] = (want - cl_cs[slot]) * c0inv,
+                    _ => fin_rl = (want - rl_cs) * c0inv,
+                }
+            }
+        }
+
+        let fin = assemble(&s_nonce, &s_tag, &b_pt, &b_rl, &b_st, &b_cl, &ser(&p_cr), &ser(&p_mr));
+        let (res, ch1) = submit(&fin, &mut rng);
+        let accepted = res.is_some();
+        let (tr1, c1) = ch1.unwrap_or((vec![], Scalar::zero()));
+
+        // ---- independent relation atoms on the final proof under the verifier's challenge
+        let ft = Tree { bytes: fin.clone(), leaves: tpl.leaves.clone() };
+        let sp_pt = Sp::from_tree(&ft, "old_pay_token_proof").unwrap();
+        let cp_rl = Cp { c: ft.bytes_at("old_revocation_lock_proof.commitment").unwrap().to_vec(),
+                         t: ft.bytes_at("old_revocation_lock_proof.scalar_commitment").unwrap().to_vec(),
+                         zbf: indep::sc(ft.bytes_at("old_revocation_lock_proof.blinding_factor_response_scalar").unwrap()).unwrap(),
+                         z: vec![indep::sc(ft.bytes_at("old_revocation_lock_proof.message_response_scalars.0").unwrap()).unwrap()] };
+        let cp_st = Cp::from_tree(&ft, "state_proof.commitment_proof").unwrap();
+        let cp_cl = Cp::from_tree(&ft, "close_state_proof.commitment_proof").unwrap();
+        let (pt_wf, pt_schnorr, pt_pair) = sp_pt.relations(&pkv, &c1);
+        let range_atoms = |prefix: &str, expected: &Scalar| -> (bool, bool) {
+            let mut all = true;
+            let mut sum = Scalar::zero();
+            let mut pow = Scalar::one();
+            let mut j = 0;
+            while let Some(sp) = Sp::from_tree(&ft, &format!("{}.digit_proofs.{}", prefix, j)) {
+                let (a, b, c) = sp.relations(&rpk, &c1);
+                all = all && a && b && c;
+                sum += pow * sp.cp.z[0];
+                pow *= Scalar::from(128u64);
+                j += 1;
+            }
+            (all && j == 9, sum == *expected)
+        };
+        let (cr_digits, cr_sum) = range_atoms("customer_balance_proof", &cp_st.z[3]);
+        let (mr_digits, mr_sum) = range_atoms("merchant_balance_proof", &cp_st.z[4]);
+        let sn = indep::sc(ft.bytes_at("old_nonce_commitment_scalar").unwrap()).unwrap();
+        let stg = indep::sc(ft.bytes_at("close_tag_commitment_scalar").unwrap()).unwrap();
+        let z = &sp_pt.cp.z;
+        let atoms = json!({
+            "token_sigma1_not_identity": pt_wf, "token_schnorr": pt_schnorr, "token_pairing": pt_pair,
+            "schnorr_revlock": cp_rl.schnorr_g1(&rev_h, &[rev_g], &c1),
+            "schnorr_state": cp_st.schnorr_g1(&pkv.g1, &pkv.y1s, &c1),
+            "schnorr_close": cp_cl.schnorr_g1(&pkv.g1, &pkv.y1s, &c1),
+            "cb_digits": cr_digits, "cb_range_link": cr_sum, "mb_digits": mr_digits, "mb_range_link": mr_sum,
+            "cid_state_close": cp_st.z[0] == cp_cl.z[0], "cid_close_token": cp_cl.z[0] == z[0],
+            "tag_close": cp_cl.z[1] == c1 * CLOSE_SCALAR + stg,
+            "old_locks_equal": cp_rl.z[0] == z[2],
+            "new_locks_equal": cp_st.z[2] == cp_cl.z[2],
+            "nonce_token": z[1] == c1 * claimed_nonce_s + sn,
+            "cb_state_close": cp_st.z[3] == cp_cl.z[3], "mb_state_close": cp_st.z[4] == cp_cl.z[4],
+            "cb_updated": cp_st.z[3] == z[3] - c1 * ca_s, "mb_updated": cp_st.z[4] == z[4] + c1 * ca_s,
+            "challenge_is_sha3_of_transcript": indep::challenge_of_transcript(&tr1) == c1,
+        });
+
+        // ---- truth of the statement for the (final) hidden values
+        let truth = token_ok && hpt[1] == claimed_nonce_s
+            && fin_st[0] == hpt[0] && fin_cl[0] == hpt[0]
+            && fin_cl[1] == CLOSE_SCALAR
+            && fin_st[2] == fin_cl[2]
+            && fin_st[3] == hpt[3] - ca_s && fin_cl[3] == fin_st[3] && in_range_63(&fin_st[3])
+            && fin_st[4] == hpt[4] + ca_s && fin_cl[4] == fin_st[4] && in_range_63(&fin_st[4])
+            && fin_rl == hpt[2];
+
+        // ---- on acceptance: what was signed, and does the revocation commitment hold the old lock?
+        let mut sigs = json!({});
+        if let Some((unrev, csig)) = res {
+            let close_sig = unblind_bytes(&bincode::serialize(&csig).unwrap(), bf_cl);
+            let vc = close_sig.map(|s| s.verify(&pk, &Message::new(fin_cl))).unwrap_or(false);
+            let mut none_other = true;
+            for i in 0..5 {
+                let mut a = fin_cl;
+                a[i] += Scalar::one();
+                if close_sig.map(|s| s.verify(&pk, &Message::new(a))).unwrap_or(false) { none_other = false; }
+            }
+            // complete the payment with the REAL pair of the old state and the attacker's blinding factor
+            let pair: zkabacus_crypto::revlock::RevocationPair = bincode::deserialize(&info.old_pair).unwrap();
+            let rbf: zkabacus_crypto::revlock::RevocationLockBlindingFactor = bincode::deserialize(&bincode::serialize(&bf_rl).unwrap()).unwrap();
+            let completes = match unrev.complete_payment(&mut rng, &pair, &rbf) {
+                Ok(tok) => {
+                    let ts = unblind_bytes(&bincode::serialize(&tok).unwrap(), bf_st);
+                    ts.map(|s| s.verify(&pk, &Message::new(fin_st))).unwrap_or(false)
+                }
+                Err(_) => false,
+            };
+            sigs = json!({"close_sig_on_hidden_close_state": vc, "no_single_slot_variation": none_other,
+                          "old_pair_completes_iff_committed": completes == (fin_rl == info.old[2])});
+        }
+        let _ = (&mut z_st, &mut z_cl, z_rl, cfg);
+        json!({"ev": "game", "proof": "pay", "id": st["id"], "strategy": st["name"], "accepted": accepted, "atoms": atoms,
+               "truth": truth, "token_ok": token_ok, "sigs": sigs, "challenge_changed_after_late_choice": c1 != c0,
+               "clusters": st["clusters"]})
+    }
+
+    /// which non-response atoms of an honest PayProof are bound by the merchant's challenge
+    pub fn observe_pay(&mut self) -> Value {
+        let info = self.honest_ready(100, 50, &[]);
+        let amount = 7i64;
+        let (bytes, tpl, nonce_b) = self.honest_pay_proof(&info, amount);
+        let mut rng = self.rng(5);
+        let m: &'static merchant::Config = self.world.mers[0];
+        let nonce: Nonce = bincode::deserialize(&nonce_b).unwrap();
+        let amt: PaymentAmount = bincode::deserialize(&amount.to_le_bytes()).unwrap();
+        let ctx = info.ctx;
+        let run = |b: &[u8], rng: &mut StdRng| -> Option<(bool, Vec<u8>, Scalar)> {
+            let _ = take_challenge_log();
+            let p: PayProof = bincode::deserialize(b).ok()?;
+            let r = m.allow_payment(rng, amt, &nonce, p, &ctx).is_some();
+            let (t, c) = last_challenge()?;
+            Some((r, t, c))
+        };
+        let (ok0, tr0, c0) = run(&bytes, &mut rng).expect("honest pay proof decodes");
+        let mut atoms = vec![];
+        for l in tpl.atoms() {
+            let response = l.path.contains("response");
+            let mut b = bytes.clone();
+            let new = other_atom(l.len, &mut rng);
+            b[l.off..l.off + l.len].copy_from_slice(&new);
+            let (changed, dec) = match run(&b, &mut rng) {
+                Some((_, _, c)) => (c != c0, true),
+                None => (false, false),
+            };
+            atoms.push(json!({"path": l.path, "len": l.len, "response": response, "hashed": changed, "decoded": dec,
+                              "in_transcript": contains(&tr0, &bytes[l.off..l.off + l.len])}));
+        }
+        json!({"proof": "pay", "honest_accepted": ok0, "transcript_len": tr0.len(), "atoms": atoms})
+    }
+}
+
+mod erased {
+    /// tiny helper: bincode-serialize any of the proof objects behind one call site
+    pub trait Ser { fn ser(&self) -> Vec<u8>; }
+    impl<T: serde::Serialize> Ser for T {
+        fn ser(&self) -> Vec<u8> { bincode::serialize(self).unwrap() }
+    }
 }
